@@ -31,9 +31,9 @@ KINDS = ["PELT", "MW", "SBS", "CBS"]
 # hyper-parameter settings per kind: id -> (kwargs, tunes)
 DPARAMS = {
     "PELT": {0: (dict(min_segment_length=2, penalty_scale=1.0), False), 1: (dict(min_segment_length=3, penalty_scale=0.4), False)},
-    "MW": {0: (dict(bandwidth=3, threshold_scale=1.0), False), 1: (dict(bandwidth=4, threshold_scale=None, level=0.1), True)},
-    "SBS": {0: (dict(min_segment_length=2, threshold_scale=0.8), False), 1: (dict(min_segment_length=3, threshold_scale=None, level=0.2), True)},
-    "CBS": {0: (dict(min_segment_length=2, max_interval_length=14, threshold_scale=0.5), False),
+    "MW": {0: (dict(bandwidth=3, threshold_scale=1.0, level=0.01), False), 1: (dict(bandwidth=4, threshold_scale=None, level=0.1), True)},
+    "SBS": {0: (dict(min_segment_length=2, threshold_scale=0.8, level=0.01), False), 1: (dict(min_segment_length=3, threshold_scale=None, level=0.2), True)},
+    "CBS": {0: (dict(min_segment_length=2, max_interval_length=14, threshold_scale=0.5, level=0.01), False),
             1: (dict(min_segment_length=2, max_interval_length=10, threshold_scale=None, level=0.2), True)},
 }
 SCORER_ARG = {"PELT": "cost", "MW": "change_score", "SBS": "change_score", "CBS": "anomaly_score"}
